@@ -267,7 +267,7 @@ void do_sample(uint64_t k, Rng &rng, Stats &st, const Sandbox &sb) {
     }
     std::string bytes = sb.get("out");
     std::vector<std::vector<bool>> rows;
-    if (nm == 0 && f == 1) { st.hit("sample.empty_b8"); return; }
+    if (nm == 0 && (f == 1 || f == 5)) { st.hit("sample.zero_width_binary"); return; }   // a zero-width b8 / ptb64 file is empty: no shot count to decode
     if (!decode(sb.path("out"), FMTS[f], nm, 0, 0, shots, rows) || rows.size() != shots) {
         out_x("`stim " + strip_dir(r.line, sb) + "`: output does not decode to " + std::to_string(shots) + " records of " + std::to_string(nm) + " bits (got " + std::to_string(rows.size()) + ")");
         return;
@@ -354,12 +354,12 @@ void do_detect(uint64_t k, Rng &rng, Stats &st, const Sandbox &sb) {
         width = nd + no;
         if (ok) q_bytes(f, 0, nd, no, rows, bytes);
     } else {
-        if (nd == 0 && f == 1) { st.hit("detect.empty_b8"); return; }
+        if (nd == 0 && (f == 1 || f == 5)) { st.hit("detect.zero_width_binary"); return; }
         ok = decode(sb.path("out"), FMTS[f], 0, nd, 0, shots, rows);
         width = nd;
         if (ok) q_bytes(f, 0, nd, 0, rows, bytes);
         if (variant == 2) {
-            if (no == 0 && fo == 1) have_obs = false;
+            if (no == 0 && (fo == 1 || fo == 5)) have_obs = false;
             else {
                 ok = ok && decode(sb.path("obs"), FMTS[fo], 0, 0, no, shots, orows) && orows.size() == shots;
                 if (ok) q_bytes(fo, 0, 0, no, orows, sb.get("obs"));
